@@ -129,7 +129,7 @@ theorem initVars_lookup (x : String) (v : Val)
     · left; injection h with h; exact h.symm
     · right; exact lookup_builtins x v _ h
 
-theorem globalNames_fo : ∀ n ∈ VM.globalNames, okSym n = true → (n ∈ foBuiltins ∨ n = "force") := by decide
+theorem globalNames_fo : ∀ n ∈ VM.globalNames, okSym n = true → (n ∈ foBuiltins ∨ (n = "force" ∨ n = "apply" ∨ n = "map")) := by decide
 
 theorem relF_initSt (m : Nat → Nat) : RelF m initSt Ref.initSt 0 := by
   have hsc : ∀ i, 0 < i → scopeOf initSt i = {} := fun i hi => by
